@@ -2,9 +2,11 @@
 relations, parent/split/relativize; RFC 4471 successor / predecessor."""
 import concurrent.futures as cf
 import json
+import os
 import random
 
 from drivers import c06_order
+from vlib import tlc
 
 LEVEL = "model_checking"
 META = {
@@ -91,6 +93,11 @@ def rnd_related(rng, a):
     if r < 0.35 and a:
         k = rng.randrange(len(a) + 1)
         return flipcase(rng, a[k:])  # a superdomain (or the empty name)
+    if r < 0.42 and a and a[0] and len(a[0]) < 60:
+        # first label of b contains <length><first label of a>: equal on the wire suffix, not a subdomain
+        k = rng.randrange(len(a)) if rng.random() < 0.3 else 0
+        if a[k] and len(a[k]) <= 60 and sum(len(x) + 1 for x in a) <= 250:
+            return a[:k] + [[rng.choice([97, 1, 200])] * rng.randint(0, 2) + [len(a[k])] + a[k]] + a[k + 1:]
     if r < 0.55:
         pre = [rnd_label(rng, 8) for _ in range(rng.randint(1, 2))]
         b = pre + flipcase(rng, a)
@@ -103,6 +110,10 @@ def rnd_related(rng, a):
             b[i][j] = rng.choice([b[i][j] ^ 0x20, (b[i][j] + 1) % 256, (b[i][j] - 1) % 256, rng.randrange(256)])
         return b
     return rnd_name(rng)
+
+
+def swapcase(labels):
+    return [[c ^ 0x20 if 65 <= c <= 90 or 97 <= c <= 122 else c for c in x] for x in labels]
 
 
 def is_f6(n, o):
@@ -131,10 +142,15 @@ def classify(tr, line, clause):
         v = e.get(k)
         if isinstance(v, list) and v and v[0] == "err":
             exc = v[1]
-    return "%s:%s:%s" % (clause, op, exc)
+    how = ""
+    if e.get("ca", "Name") != "Name" or e.get("cb", "Name") != "Name":
+        cs = (e.get("ca", "Name"), e.get("cb", "Name"))
+        how = ":operand-from=" + ("pickle" if any(c.startswith("pickle") for c in cs) else
+                                  "deepcopy" if "deepcopy" in cs else "copy")
+    return "%s:%s:%s%s" % (clause, op, exc, how)
 
 
-def build_jobs(ctx, quick, u06, neigh):
+def build_jobs(ctx, quick, u06, neigh, mimic=()):
     rng = random.Random(1000 + ctx.seed)
     jobs = []
     add = lambda kind, *args: jobs.append(("%s%d" % (kind[0], len(jobs)), kind, args))  # noqa: E731
@@ -151,23 +167,62 @@ def build_jobs(ctx, quick, u06, neigh):
     for n in u06:
         for o in origins:
             add("rel", n, o)
+    # the "mimic" universe (labels that contain <length><label> of other universe names): every
+    # ordered pair, parent / split of every name, relativize against its plain-label members
+    nstruct0 = len(jobs)
+    for a in mimic:
+        for b in mimic:
+            add("pair", a, b)
+    plain = ([97], [65], [1, 97])
+    morigins = [n for n in mimic if all(x == [] or x in plain for x in n)]
+    for n in mimic:
+        add("name", n)
+        for o in morigins:
+            add("rel", n, o)
+    nmimic = len(jobs) - nstruct0
+    # the same names obtained through copy.copy / copy.deepcopy / pickle (every protocol): the derived
+    # object against its original (both orders), against the case-swapped spelling, against its
+    # parent-side suffix, and against a differently derived case-swapped object
+    nder0 = len(jobs)
+    ctors = c06_order.CTORS
+    for i, n in enumerate(list(u06) + list(mimic)):
+        sw = swapcase(n)
+        for j, c in enumerate(ctors):
+            add("derived", n, c, n, "Name")
+            add("derived", n, "Name", n, c)
+            add("derived", n, c, sw, "Name")
+            add("derived", n[1:], "Name", n, c)
+            add("derived", sw, ctors[(i + j) % len(ctors)], n, c)
+    nmimic += len(jobs) - nder0
     # RFC 4471 neighbours: every case of NeighbourCases, prefix_ok both ways
     for n, o in neigh:
         for p in (True, False):
             add("neigh", "succ", n, o, p)
             add("neigh", "pred", n, o, p)
     ctx.extra["universe"] = {"U06": len(u06), "pairs": len(u06) ** 2, "rel_origins": len(origins),
-                             "neighbour_cases": len(neigh)}
+                             "neighbour_cases": len(neigh), "UMimic": len(mimic), "mimic_pairs": len(mimic) ** 2,
+                             "mimic_rel_origins": len(morigins),
+                             "derived_constructors": len(c06_order.CTORS)}
     # seeded random names over all 256 octets
     nrand = 20000 if quick else 300000
     for _ in range(nrand):
         a = rnd_name(rng)
         b = rnd_related(rng, a)
+        if rng.random() < 0.5:
+            a, b = b, a
         add("pair", a, b)
+    for _ in range(nrand // 5):
+        a = rnd_name(rng)
+        b = rnd_related(rng, a)
+        ca, cb = rng.choice(c06_order.CTORS), rng.choice(["Name", "Name"] + c06_order.CTORS)
+        add("derived", a, ca, b, cb)
+        add("derived", b, cb, a, ca)
+        add("derived", a, ca, a, "Name")
     for _ in range(nrand // 10):
         a = rnd_name(rng)
         add("name", a)
-        add("rel", a, rnd_related(rng, a))
+        b = rnd_related(rng, a)
+        add("rel", *((a, b) if rng.random() < 0.5 else (b, a)))
     for _ in range(nrand // 10):
         o = rnd_name(rng, absolute=True, maxlabels=2)
         pre = rnd_name(rng, absolute=False, maxlabels=3)
@@ -193,7 +248,7 @@ def build_jobs(ctx, quick, u06, neigh):
             keys.append([])
         dels = [k for k in keys if rng.random() < 0.25]
         add("deepest", keys, dels, q)
-    ctx.extra["random_cases"] = len(jobs) - len(u06) ** 2 - len(names) - len(u06) * len(origins) - 4 * len(neigh)
+    ctx.extra["random_cases"] = len(jobs) - len(u06) ** 2 - len(names) - len(u06) * len(origins) - 4 * len(neigh) - nmimic
     return jobs
 
 
@@ -209,7 +264,9 @@ def nontrivial(job):
 def run(ctx):
     quick = ctx.tier == "quick"
     ctx.rule = ("universes emitted by TLC from specs/NameUniverse.tla (all ordered pairs of the 422-name universe U06, "
-                "every name x a sub-universe of origins, every NeighbourCases entry x prefix_ok) plus seeded random names "
+                "every name x a sub-universe of origins, every NeighbourCases entry x prefix_ok; all ordered pairs, parent/split and "
+                "relativize of the 236-name mimic universe whose labels contain <length><label> of other names; the pair "
+                "observations on copy / deepcopy / pickle (protocols 0..5) round trips of every universe name) plus seeded random names "
                 "over all 256 octets (related pairs: case flips, suffixes, prefixes, single-octet changes); one event per "
                 "evaluation; distinct = distinct (operation, arguments); non-trivial = the two names of a pair differ / a "
                 "sorted sample has at least two names")
@@ -224,12 +281,23 @@ def run(ctx):
     else:
         # quick: single-worker model runs (one TLC slot each: the machine-wide slot throttle starves
         # multi-worker requests when many checks run at once); they overlap with the validation
-        ex = cf.ThreadPoolExecutor(max_workers=3)
-        mc = [ex.submit(ctx.model, "MC_DnsName", "MC_DnsName_quick.cfg" if quick else "MC_DnsName_thorough.cfg", workers=1 if quick else 12),
-              ex.submit(ctx.model, "MC_DnsName", "MC_DnsName_zone.cfg" if quick else "MC_DnsName_zone_thorough.cfg", workers=1 if quick else 4)]
+        ex = cf.ThreadPoolExecutor(max_workers=5)
+        # quick: the modes of MC_DnsName_quick.cfg as three single-worker runs side by side
+        base = open(os.path.join(tlc.SPECS, "MC_DnsName_quick.cfg")).read()
+        allmodes = 'Modes = {"pair", "mimic", "triple", "neigh", "cons"}'
+        assert allmodes in base
+        split = [ctx.cfg("mc_%d.cfg" % i, base.replace(allmodes, "Modes = " + m))
+                 for i, m in enumerate(('{"pair", "mimic"}', '{"triple", "cons"}', '{"neigh"}'))]
+        if quick:
+            mc = [ex.submit(ctx.model, "MC_DnsName", c, workers=1) for c in split]
+        else:
+            mc = [ex.submit(ctx.model, "MC_DnsName", "MC_DnsName_thorough.cfg", workers=12)]
+        mc.append(ex.submit(ctx.model, "MC_DnsName", "MC_DnsName_zone.cfg" if quick else "MC_DnsName_zone_thorough.cfg",
+                            workers=1 if quick else 4))
         u06 = gen(ctx, "u06", quick)
         neigh = gen(ctx, "neigh", quick)
-        jobs = build_jobs(ctx, quick, u06, neigh)
+        mimic = gen(ctx, "mimic", quick)
+        jobs = build_jobs(ctx, quick, u06, neigh, mimic)
         ctx.log("%d evaluations to run on the implementation" % len(jobs))
         traces = ctx.pmap(c06_order.run_job, jobs, chunk=2000)
         for tr in traces[:2] + traces[len(u06) ** 2 + 5:len(u06) ** 2 + 6] + traces[-2:]:
